@@ -63,11 +63,13 @@ def _explore_run(circuit, kind):
 
 
 def _has_block(items):
-    return any(it["t"] == "B" for it in items)
+    return any(it["t"] in ("B", "CB") for it in items)
 
 
 def _nontrivial_tree(items):
     for it in items:
+        if it["t"] == "CB":
+            return True
         if it["t"] == "B":
             if it["reps"] != 1 or it["qmap"] or it["kmap"] or it["ids"] is not None or _nontrivial_tree(it["body"]):
                 return True
@@ -121,7 +123,8 @@ def sec_measured(ctx, rng, case):
     n = int(rng.integers(1, 4))
     dims = (2,) * n
     budget = [6]
-    items = B.gen_body(rng, n, depth=int(rng.integers(1, 4)), visible=set(), budget=budget, allow_measure=True)
+    items = B.gen_body(rng, n, depth=int(rng.integers(1, 4)), visible=set(), budget=budget, allow_measure=True,
+                       cond_blocks=bool(rng.random() < 0.5))
     if not _has_block(items) or not any(s["t"] == "M" for s in B.flatten(items)):
         return
     qubits = P.make_qubits(rng, dims)
@@ -133,6 +136,11 @@ def sec_measured(ctx, rng, case):
     ctx.check(got_keys == want_keys, "keys==flat", "C12:measurement-keys",
               "measurement keys %r, unrolled program has %r" % (got_keys, want_keys), **wit)
     unbound = B.flat_unbound_controls(flat)
+    if unbound and any("controls:" in line or "kmap={'" in line for line in wit["tree"]):
+        # a key map that renames a key the body both measures and reads from outside can leave a control without a
+        # measurement; such programs are outside the domain (Cirq raises at run time), the generator does not avoid them
+        ctx.reject("generator-unbound-control")
+        return
     ctx.check(not unbound, "harness-sanity", "C12:harness-unbound-control", "generator produced an unbound control %r" % unbound, **wit)
     ref = I.distribution(I.run(B.flat_to_ref(flat), dims))
     kind = ["sv", "sv-nosplit", "dm"][int(rng.integers(3))]
